@@ -8,7 +8,8 @@ for l in open(os.path.join(HERE, 'selftest', 'seed_matrix.txt')):
     if len(parts) < 3 or 'own=' not in parts[1]:
         continue
     rows.append((parts[0], parts[1].replace('own=', ''), parts[2].replace('violations:', '').strip(),
-                 parts[3] if len(parts) > 3 else '', parts[4] if len(parts) > 4 else ''))
+                 (parts[3] if len(parts) > 3 else '').replace('undecided:', '').strip(), parts[4] if len(parts) > 4 else '',
+                 parts[5] if len(parts) > 5 else ''))
 
 
 def change(n):
@@ -19,11 +20,17 @@ def change(n):
     return c.replace('|', '/')[:115]
 
 
-tab = ['| seed | the change (one line; details in seeded/<id>/notes.md) | own property | properties whose check reports a violation | first failing obligation |', '|---|---|---|---|---|']
-for n, own, viol, und, obl in rows:
+tab = ['| seed | the change (one line; details in seeded/<id>/notes.md) | own property | properties whose check reports a violation | first failing obligation / why undecided |', '|---|---|---|---|---|']
+for n, own, viol, und, obl, why in rows:
     first = obl.split(';')[0].replace('|', '/')[:95] if obl else ''
-    res = '**caught**' if own == 'HIT' else ('**not decided (exit 2)**' if und else '**missed**')
-    tab.append(f"| {n} | {change(n)} | {res} | {viol or '—'} | {('`' + first + '`') if first else (und[20:110] if und else '')} |")
+    res = '**caught**' if own == 'HIT' else ('**not decided (exit 2)**' if own == 'undecided' else '**missed**')
+    if first:
+        last = '`' + first + '`'
+    elif why:
+        last = 'T1: ' + why.split(';')[0][:110]
+    else:
+        last = re.sub(r'^.*?UNDECIDED property=all: ', '', und)[:110]
+    tab.append(f"| {n} | {change(n)} | {res} | {viol or '—'} | {last.replace('|', '/')} |")
 hits = sum(1 for r in rows if r[1] == 'HIT')
 p = os.path.join(HERE, 'DESIGN.md')
 s = open(p).read()
